@@ -453,13 +453,42 @@ func cmdMinimise(args []string) int {
 		m.repeat = 25
 	}
 	spec := cloneSpec(&rf.Spec)
-	// sanity: the input must reproduce before anything is removed
-	if !m.still(spec) {
-		rf.Note = "violation did not reproduce in a fresh process; file left unminimised"
+	// sanity: the input must reproduce before anything is removed. Four fresh
+	// processes: all four => deterministic; some => the library itself is
+	// nondeterministic (sync.Pool, map order, its own goroutines): keep going
+	// with repeated attempts per candidate.
+	if m.repeat == 1 {
+		hits := 0
+		for k := 0; k < 4; k++ {
+			if m.still(spec) {
+				hits++
+			}
+		}
+		if hits == 0 {
+			m.repeat = 25
+		} else if hits < 4 {
+			m.repeat = 10
+			rf.Flaky = true
+		}
+	}
+	if m.repeat > 1 && !m.still(spec) {
+		rf.Note = "violation did not reproduce in fresh processes; file left unminimised"
 		rf.Minimised = false
+		rf.Flaky = true
 		_ = writeJSONFile(*out, &rf)
 		fmt.Printf("minimise: NOT reproduced (%d tests)\n", m.tests)
 		return 0
+	}
+	if m.repeat > 1 {
+		rf.Flaky = true
+	}
+	// drop the decisions the run never consumed
+	if m.last != nil && m.last.Consumed < len(spec.Decisions) && m.repeat == 1 {
+		c := cloneSpec(spec)
+		c.Decisions = c.Decisions[:m.last.Consumed]
+		if m.still(c) {
+			spec = c
+		}
 	}
 	small := m.run(spec)
 	// final confirmation, in a fresh process, twice
@@ -476,12 +505,12 @@ func cmdMinimise(args []string) int {
 		h2 = m.last.TraceHash
 	}
 	res := rf
-	if ok1 && ok2 {
+	if (ok1 && ok2) || (rf.Flaky && (ok1 || ok2)) {
 		res.Spec = *small
 		res.Minimised = true
 		res.TraceHash = h2
 		res.Violations = m.last.Violations
-		if h1 != h2 && rf.Controlled {
+		if h1 != h2 && rf.Controlled && !rf.Flaky {
 			res.Note = "trace hash differs between two replays of the minimised file"
 		}
 	} else {
